@@ -92,6 +92,73 @@ PROPS = {
     ),
 }
 
+STORE_RULE = ("files: a writer (4 text encodings, compressed and uncompressed saves) edits maps / lists / text / counters, "
+              "merges concurrent edits from a second replica, saves once and appends 1-4 save_incremental pieces. "
+              "Non-trivial: a file of >= 2 chunks; distinct by file bytes.")
+
+PROPS["C13"] = dict(
+    families=["store"],
+    label="full for the framing and the chunk loops of load / load_changes; the chunk body parsers, SHA-256, inflate and the "
+          "CRDT-level apply are parameters of the theorems",
+    level_text="Theorem C13_truncated_load over a byte-level model of storage/chunk.rs Header::parse / Chunk::parse and of the chunk "
+               "loops of load_with_options and load_changes: for every hash function, body parser and apply function, a file of "
+               "written chunks cut at ANY byte loads (partial loads allowed) to exactly what the file cut at the last chunk "
+               "boundary loads to, the empty document for the empty cut, an error inside the first chunk; a strict load fails unless "
+               "the cut is a chunk boundary (prefix-freeness of the framing, C13_prefix_free); the loaders never panic. Tied to the "
+               "code by cutting every generated file at EVERY byte and comparing both loaders with the documents at the chunk "
+               "boundaries (heads, state, change bytes, missing deps), and by comparing the model's chunk boundaries (its header "
+               "parser run over the file) with the cut points at which the implementation's strict load succeeds.",
+    rule=STORE_RULE + " Every byte offset 0..len of every file is one evaluation pair (partial + strict).",
+    assumptions=["SHA-256 output is 32 bytes (theorem hypothesis: >= 4)",
+                 "chunk bodies, inflate and apply_changes are parameters of the model (not modelled here)"],
+)
+PROPS["C12"] = dict(
+    families=["store"],
+    label="full for framing + refeed idempotence of the causal queue; the columnar chunk bodies are parameters (spec-level there)",
+    level_text="Theorems: any concatenation of written chunks loads (load and load_incremental) to the changes of all chunks, in "
+               "order, applied to the empty / the given document (C12_concat_loads, C12_load_incremental, over the model of "
+               "Chunk::parse and the chunk loops); delivering changes a document already holds, applied or queued, returns the same "
+               "document (C12_refeed_no_effect, over the model of apply_changes). That a chunk body decodes to the changes the writer "
+               "had is outside the model: it is checked on the implementation by comparing, for every generated writer, the load of "
+               "save + incremental pieces at every piece end with the writer's in-memory document at that point, readers fed the "
+               "pieces through load_incremental in order / shuffled / duplicated, re-feeding, and save_after(heads).",
+    rule=STORE_RULE,
+    assumptions=["chunk bodies (columnar codec) are parameters of the model; their round trip is checked differentially"],
+)
+
+PROPS["C14"] = dict(
+    families=["store"],
+    label="full for the framing and checksum of uncompressed chunks, up to a collision of the 4-byte checksum (hash is a parameter); "
+          "REFUTED for compressed change chunks (known finding); chunk bodies are parameters",
+    level_text="Theorems over the model of Header::parse / Chunk::parse + checksum_valid: every accepted uncompressed chunk is byte for "
+               "byte the writer's encoding of the (type, data) it carries (C14_accepted_is_canonical, uses the canonical-LEB128 "
+               "theorem); hence bytes that stand where a written chunk stood but differ from it are accepted only as a DIFFERENT "
+               "(type, data) pair with the same 4-byte checksum (C14_rejected_or_collision), and are rejected unconditionally when only "
+               "the checksum field was hit (C14_checksum_field_hit). C14_compressed_refuted: a compressed change chunk is accepted for "
+               "every deflate stream that inflates to the same bytes - reported as KNOWN-FINDING (DEFLATE padding bits). Tied to the "
+               "code by flipping EVERY bit of generated files (save + incremental saves), bundles, raw and compressed root changes "
+               "and loading each: a panic or an accepted load is a violation; the model's header parser is compared with the "
+               "implementation's chunk boundaries.",
+    rule=STORE_RULE + " C14: every single-bit flip of each target is one evaluation. Non-trivial: a target of >= 1 chunk; distinct by bytes.",
+    assumptions=["SHA-256 is a parameter: rejection is proved up to a collision of its first 4 bytes",
+                 "chunk bodies and inflate are parameters of the model"],
+)
+
+PROPS["C11"] = dict(
+    families=["store"],
+    label="partial: framing proved; the columnar document codec is a parameter of the model and is checked differentially",
+    level_text="Theorems over the model of Chunk::parse and load_with_options: the output of save is one document chunk and loading "
+               "it, strictly or not, is exactly its body's changes applied to the empty document, whatever stays held "
+               "(C11_load_saved_document_partial); a written chunk parses back to its type and body and leaves the rest "
+               "(C11_parse_written). NOT proved: that the columnar body save writes decodes to the document's changes and state "
+               "(op_set2 / hexane columns are not modelled). That part is checked on the implementation: for every generated "
+               "document (4 text encodings, concurrent merges, with and without held orphan changes) and each of deflate x "
+               "retain_orphans, load(save(doc)) is compared with doc on heads, every register of every object, texts, change bytes, "
+               "missing deps and reads at historical heads, and save(load(save(doc))) with save(doc) byte for byte.",
+    rule=STORE_RULE + " C11: each (document, deflate, retain_orphans) triple is one evaluation.",
+    assumptions=["chunk bodies (columnar codec) are parameters of the model; their round trip is checked differentially, not proved"],
+)
+
 NOT_APPLICABLE = {
     "C36": "C API memory safety and leak freedom across the FFI boundary is a property of allocator and pointer provenance "
            "at run time; no executable Gallina model can exhibit a use-after-free or a leak, and the crate is a staticlib "
